@@ -195,7 +195,7 @@ var plainKeys = []string{"level", "message", "ts", "k8s_pod", "a", "b", "c", "d"
 	"service", "trace.id", "span_id", "user", "host", "env", "zone", "code", "n", "m", "p", "q", "r", "s", "t", "u", "v", "w",
 	"req", "resp", "tags", "labels", "meta", "ctx", "err"}
 var oddKeys = []string{"", " ", "we\"ird", "back\\slash", "tab\there", "new\nline", "ключ", "日本語", "emoji😀", "with space",
-	"a/b", "a*b", "x:y", "p|q", "c,d", "fields", "except", "é", "\u0001ctl", "q'uote", "UPPER", "upper", "Level", "MESSAGE", "a.b", "a", "ümlaut", "-dash", "a-b"}
+	"a/b", "a*b", "x:y", "p|q", "c,d", "fields", "except", "é", "\u0001ctl", "q'uote", "UPPER", "upper", "ab", "abc", "Level", "MESSAGE", "a.b", "a", "ümlaut", "-dash", "a-b"}
 
 func pickKey(r *rng.R) string {
 	switch r.Intn(10) {
@@ -920,25 +920,54 @@ func referencePipe(ts []ptok) *search.FetchFieldsFilter {
 // ---------------------------------------------------------------- stream: page (real cluster)
 
 type cluster struct {
-	env *setup.TestingEnv
-	dir string
+	env    *setup.TestingEnv
+	dir    string
+	shards int
 }
 
-func startCluster() *cluster {
+func startCluster(shards int) *cluster {
 	dir, err := os.MkdirTemp("", "verif-c20-")
 	if err != nil {
 		panic(err)
 	}
 	env := setup.NewTestingEnv(&setup.TestingEnvConfig{
-		Name: "c20", DataDir: dir, IngestorCount: 1, HotShards: 1, HotFactor: 1,
+		Name: "c20", DataDir: dir, IngestorCount: 1, HotShards: shards, HotFactor: 1,
 		Mapping: seq.Mapping{"svc": seq.NewSingleType(seq.TokenizerTypeKeyword, "", 0)},
 	})
-	return &cluster{env: env, dir: dir}
+	return &cluster{env: env, dir: dir, shards: shards}
 }
 
 func (c *cluster) stop() {
 	c.env.StopAll()
 	os.RemoveAll(c.dir)
+}
+
+// bulkSpread sends the documents as several small bulks: the proxy picks a shard per bulk, so the
+// documents end up spread over the shards (which document lands where is not fixed by the seed;
+// nothing observed depends on it unless the code under test makes it matter)
+func (c *cluster) bulkSpread(r *rng.R, docs [][]byte) error {
+	for len(docs) > 0 {
+		n := r.Range(1, 3)
+		if n > len(docs) {
+			n = len(docs)
+		}
+		if err := c.bulk(docs[:n]); err != nil {
+			return err
+		}
+		docs = docs[n:]
+	}
+	return nil
+}
+
+// shardsWithDocs counts the stores that hold at least one document
+func (c *cluster) shardsWithDocs() int {
+	n := 0
+	for _, reps := range c.env.HotStores {
+		if len(reps) > 0 && reps[0].FracManager.Active().Info().DocsTotal > 0 {
+			n++
+		}
+	}
+	return n
 }
 
 func (c *cluster) bulk(docs [][]byte) error {
@@ -999,10 +1028,21 @@ func pipeText(r *rng.R, fields []string, allow bool) string {
 func streamPage(w *casefile.Writer, r *rng.R, rounds, docsPerRound, queries int) {
 	conf.UseSeqQLByDefault = true // flag --use-seq-ql-by-default: pipes exist in SeqQL only
 	for round := 0; round < rounds; round++ {
-		c := startCluster()
+		c := startCluster(2 + round%2) // 2 or 3 shards: a fetch goes to several sources
 		func() {
 			defer c.stop()
 			pool := keyPool(r)
+			for _, must := range []string{"", " ", "a", "ab", "abc", "a.b"} { // empty name, names that are prefixes of each other
+				has := false
+				for _, k := range pool {
+					if k == must {
+						has = true
+					}
+				}
+				if !has {
+					pool = append(pool, must)
+				}
+			}
 			base := time.Now().UTC().Add(-time.Hour).Truncate(time.Second)
 			docs := make([][]byte, docsPerRound)
 			for i := range docs {
@@ -1011,6 +1051,9 @@ func streamPage(w *casefile.Writer, r *rng.R, rounds, docsPerRound, queries int)
 					size = len(pool)
 				}
 				keys := distinctKeys(r, pool, size)
+				if r.Chance(1, 3) {
+					keys = append(keys, "") // an empty-named member (removed again below if already drawn)
+				}
 				// every document carries a distinct time so that the order of the result is fixed by the seed
 				tkey := "time"
 				keys = append(keys, tkey)
@@ -1033,11 +1076,12 @@ func streamPage(w *casefile.Writer, r *rng.R, rounds, docsPerRound, queries int)
 				fixed := map[string]string{tkey: `"` + base.Add(time.Duration(i)*time.Second).Format(time.RFC3339) + `"`}
 				docs[i] = renderDoc(r, uniq, genOpts{noNewline: true}, fixed)
 			}
-			if err := c.bulk(docs); err != nil {
+			if err := c.bulkSpread(r, docs); err != nil {
 				w.Violate("page:bulk-error", "bulk of valid JSON objects failed: "+err.Error(), map[string]any{"docs": batchStrings(docs)})
 				return
 			}
 			c.env.WaitIdle()
+			w.Count(fmt.Sprintf("page-cluster:shards=%d,with-docs=%d", c.shards, c.shardsWithDocs()))
 			present := unionKeys(docs)
 			for qi := 0; qi < queries; qi++ {
 				if qi == queries/2 {
@@ -1047,6 +1091,13 @@ func streamPage(w *casefile.Writer, r *rng.R, rounds, docsPerRound, queries int)
 				if len(fields) == 0 {
 					fields = []string{rng.Pick(r, present)}
 				}
+				if r.Bool() { // repeat names: `fields a, a`, `fields except b, a, b`
+					for i := r.Range(1, 2); i > 0; i-- {
+						fields = append(fields, rng.Pick(r, fields))
+					}
+					rng.Shuffle(r, fields)
+					kind += "+repeated"
+				}
 				allow := r.Bool()
 				size := r.Range(1, docsPerRound+2)
 				offset := r.Intn(docsPerRound/2 + 1)
@@ -1054,7 +1105,7 @@ func streamPage(w *casefile.Writer, r *rng.R, rounds, docsPerRound, queries int)
 				if r.Bool() {
 					order = seq.DocsOrderAsc
 				}
-				in := map[string]any{"kind": kind, "size": size, "offset": offset, "order": int(order), "stored": batchStrings(docs), "sealed": qi >= queries/2}
+				in := map[string]any{"kind": kind, "size": size, "offset": offset, "order": int(order), "stored": batchStrings(docs), "sealed": qi >= queries/2, "shards": c.shards}
 				via := []string{"page-search", "page-documents", "page-store-fetch"}[r.Intn(3)]
 				q := "*" + pipeText(r, fields, allow)
 				in["via"] = via
@@ -1108,35 +1159,121 @@ func (c *cluster) observe(via, q string, fields []string, allow bool, size, offs
 		for i, s := range qpr.IDs {
 			strs[i] = s.ID.String()
 		}
-		cl := storeapi.NewClient(c.env.Store(true))
-		fetch := func(ff *pstoreapi.FetchRequest_FieldsFilter) ([][]byte, error) {
-			st, err := cl.Fetch(context.Background(), &pstoreapi.FetchRequest{Ids: strs, FieldsFilter: ff})
-			if err != nil {
-				return nil, err
-			}
-			var out [][]byte
-			for {
-				d, err := st.Recv()
-				if err == io.EOF {
-					return out, nil
-				}
+		var a, b [][]byte
+		for _, reps := range c.env.HotStores { // every store in turn; a store answers an ID it does not hold with an empty block
+			cl := storeapi.NewClient(reps[0])
+			fetch := func(ff *pstoreapi.FetchRequest_FieldsFilter) ([][]byte, error) {
+				st, err := cl.Fetch(context.Background(), &pstoreapi.FetchRequest{Ids: strs, FieldsFilter: ff})
 				if err != nil {
 					return nil, err
 				}
-				blk := disk.DocBlock(d.Data)
-				var p []byte
-				if blk.Len() > 0 {
-					p = append([]byte{}, blk.Payload()...)
+				var out [][]byte
+				for {
+					d, err := st.Recv()
+					if err == io.EOF {
+						return out, nil
+					}
+					if err != nil {
+						return nil, err
+					}
+					blk := disk.DocBlock(d.Data)
+					var p []byte
+					if blk.Len() > 0 {
+						p = append([]byte{}, blk.Payload()...)
+					}
+					out = append(out, p)
 				}
-				out = append(out, p)
+			}
+			a1, err0 := fetch(nil)
+			b1, err1 := fetch(&pstoreapi.FetchRequest_FieldsFilter{Fields: fields, AllowList: allow})
+			if err0 != nil || err1 != nil {
+				return nil, nil, fmt.Errorf("store fetch failed: %v / %v", err0, err1)
+			}
+			if len(a1) != len(b1) {
+				return nil, nil, fmt.Errorf("store fetch: %d blocks without filter, %d with filter", len(a1), len(b1))
+			}
+			for i := range a1 {
+				if len(a1[i]) == 0 {
+					if len(b1[i]) != 0 {
+						return nil, nil, fmt.Errorf("store fetch: a document appears only with the filter: %s", b1[i])
+					}
+					continue
+				}
+				a, b = append(a, a1[i]), append(b, b1[i])
 			}
 		}
-		a, err0 := fetch(nil)
-		b, err1 := fetch(&pstoreapi.FetchRequest_FieldsFilter{Fields: fields, AllowList: allow})
-		if err0 != nil || err1 != nil {
-			return nil, nil, fmt.Errorf("store fetch failed: %v / %v", err0, err1)
-		}
 		return a, b, nil
+	}
+}
+
+// ---------------------------------------------------------------- stream: req (per-source fetch requests)
+
+func randIDs(r *rng.R, n int, source uint64) []seq.IDSource {
+	out := make([]seq.IDSource, n)
+	mid := uint64(1_700_000_000_000 + r.Intn(1000000))
+	for i := range out {
+		mid -= uint64(r.Range(0, 1000))
+		out[i] = seq.IDSource{ID: seq.ID{MID: seq.MID(mid), RID: seq.RID(r.U64())}, Source: source, Hint: ""}
+	}
+	return out
+}
+
+// reqCase builds the requests for nsrc sources from ONE filter value, as FetchDocsStream does, reading
+// each request's filter right after it was built (that is when it is sent)
+func reqCase(w *casefile.Writer, r *rng.R, fields []string, allow bool, nsrc int, kind string) {
+	si := search.NewIngestor(search.Config{}, nil)
+	before := append([]string{}, fields...)
+	ff := search.FetchFieldsFilter{Fields: fields, AllowList: allow} // every call below shares this value
+	m := newIDs()
+	ffTerm := pfCoq(m, before, allow)
+	reqs := make([]string, nsrc)
+	var seen []map[string]any
+	var pan any
+	func() {
+		defer func() { pan = recover() }()
+		for i := 0; i < nsrc; i++ {
+			ids := randIDs(r, r.Range(1, 5), uint64(i))
+			fs, al, n := si.VerifC20MakeFetchReq(ids, false, ff)
+			if n != len(ids) {
+				w.Violate("req:ids", fmt.Sprintf("request carries %d ids, %d given", n, len(ids)), map[string]any{"fields": before})
+			}
+			cp := append([]string{}, fs...)
+			reqs[i] = pfCoq(m, cp, al)
+			seen = append(seen, map[string]any{"fields": cp, "allow_list": al})
+		}
+	}()
+	in := map[string]any{"req_fields": before, "allow_list": allow, "sources": nsrc, "kind": kind}
+	if pan != nil {
+		w.Violate("panic:req", fmt.Sprintf("makeFetchReq panics: %v", pan), in)
+		return
+	}
+	after := pfCoq(m, ff.Fields, ff.AllowList)
+	rep := false
+	set := map[string]bool{}
+	for _, f := range before {
+		if set[f] {
+			rep = true
+		}
+		set[f] = true
+	}
+	w.Count("req-kind:" + kind)
+	w.Add(fmt.Sprintf("CReq %s [%s] %s", ffTerm, strings.Join(reqs, "; "), after), "req", rep && nsrc >= 2, in,
+		map[string]any{"requests": seen, "filter_after": append([]string{}, ff.Fields...)})
+}
+
+func streamReq(w *casefile.Writer, r *rng.R, n int) {
+	for i := 0; i < n; i++ {
+		pool := keyPool(r)
+		present := distinctKeys(r, pool, r.Range(1, 8))
+		fields, kind := genFilter(r, present, pool)
+		if r.Bool() && len(fields) > 0 {
+			for j := r.Range(1, 3); j > 0; j-- {
+				fields = append(fields, rng.Pick(r, fields))
+			}
+			rng.Shuffle(r, fields)
+			kind += "+repeated"
+		}
+		reqCase(w, r, fields, r.Bool(), r.Range(1, 4), kind)
 	}
 }
 
@@ -1169,13 +1306,14 @@ func main() {
 		return
 	}
 	r := rng.New(*seed)
-	nFilter, nDup, nPipe, rounds, perRound, queries := 6000, 1200, 1500, 2, 24, 30
+	nFilter, nDup, nPipe, nReq, rounds, perRound, queries := 5000, 1200, 1500, 600, 2, 24, 40
 	if *tier == "thorough" {
-		nFilter, nDup, nPipe, rounds, perRound, queries = 120000, 12000, 20000, 8, 60, 120
+		nFilter, nDup, nPipe, nReq, rounds, perRound, queries = 120000, 12000, 20000, 8000, 8, 60, 120
 	}
 	streamFilter(w, r.Fork(), nFilter)
 	streamDup(w, r.Fork(), nDup)
 	streamPipe(w, r.Fork(), nPipe)
+	streamReq(w, r.Fork(), nReq)
 	streamPage(w, r.Fork(), rounds, perRound, queries)
 	if err := w.Close(); err != nil {
 		panic(err)
@@ -1230,6 +1368,10 @@ func doReplay(w *casefile.Writer, path string) {
 		got := search.VerifC20TryParseFieldsFilter(q)
 		fmt.Printf("replay tryParseFieldsFilter(%q) = fields %q allow_list=%v\n", q, got.Fields, got.AllowList)
 		w.Evals(1)
+	case in["req_fields"] != nil:
+		n, _ := in["sources"].(float64)
+		reqCase(w, rng.New(1), strList(in["req_fields"]), allow, int(n), "replay")
+		fmt.Printf("replay makeFetchReq x%d with one filter %q: see the re-emitted case\n", int(n), strList(in["req_fields"]))
 	case in["batch"] != nil:
 		docs := toDocs(in["batch"])
 		prefix := ""
@@ -1247,9 +1389,13 @@ func doReplay(w *casefile.Writer, path string) {
 		// a page: rebuild the cluster with the stored documents and repeat the observation
 		// (document times must still be within the proxy's 24h drift window for the same order)
 		conf.UseSeqQLByDefault = true
-		c := startCluster()
+		nsh, _ := in["shards"].(float64)
+		if nsh < 1 {
+			nsh = 2
+		}
+		c := startCluster(int(nsh))
 		defer c.stop()
-		if err := c.bulk(toDocs(in["stored"])); err != nil {
+		if err := c.bulkSpread(rng.New(1), toDocs(in["stored"])); err != nil {
 			fmt.Println("replay: bulk failed:", err)
 			return
 		}
